@@ -56,6 +56,21 @@ def limb_cases():
             for j in (-7, 0, 9):
                 x = float(target * Fraction(10) ** j)
                 out.append(("%%.%de" % q, x)); out.append(("%%.%dg" % (q + 1), x)); out.append(("%%.%dE" % q, -x))
+    # values whose scaled integer lies just ABOVE a multiple of 2^32 / 2^64 / 2^96 (a zero word in the middle of a multi-word
+    # integer) with the deciding digit on either side of the rounding point
+    import random as _r
+    rr = _r.Random(12345)
+    for K in (32, 64, 96):
+        for a in (1, 2, 5, 3 * 2 ** 7):
+            for _ in range(6):
+                target = Fraction(2 ** K * a) + rr.randrange(0, 2 ** 31) + rr.choice([Fraction(1, 4), Fraction(1, 2), Fraction(3, 4), Fraction(9, 10)])
+                digits = len(str(int(target)))
+                for p in (digits - 5, digits - 1, 15, 17):
+                    if 0 <= p <= 30:
+                        out.append(("%%.%df" % p, float(target / 10 ** p)))
+                q = digits - 1
+                if q <= 38:
+                    out.append(("%%.%de" % q, float(target * Fraction(10) ** rr.choice([-9, 0, 7])))); out.append(("%%.%dg" % (q + 1), float(target)))
     return out
 
 
